@@ -240,7 +240,7 @@ def runWrEnc (evs : List String) : M Unit := do
     | none => pure ()
     if e.startsWith "gs:" then g ← need (pOut pState (e.drop 3).toString); emit "-"
     else if e.startsWith "iu:" then iu ← need (pUpd (e.drop 3).toString); emit "-"
-    else if e.startsWith "xs:" || e.startsWith "xc:" then
+    else if e.startsWith "xs:" || e.startsWith "xc:" || e == "dis" then
       match ← wrCommon w e with
       | some w' => w := w'
       | none => throw .bad
